@@ -16,6 +16,11 @@ ports one at a time, loop to quiescence, output ports read back):
   * the final bags of all replayed orders of one stream are compared with each other (order independence).
 Classes in which the literal algorithm itself violates the property in the model are replayed the same
 way: the real code agreeing with the model there is a genuine defect (specific signature).
+Inner-schema broadcast (families "innerbroadcast"/"innershared", trees dot(dot(A,B),C) and dot(cartesian(A,B),C)): the
+sibling port C is strictly deeper than the schemas of the inner combinator (tags of depth 4 for the cartesian one), so
+the element the outer combinator broadcasts/pours between its keys is an inner SCHEMA - one mutable dict stored under
+several keys in the code, a value in the model.  Model-checked and replayed in the quick tier (all arrival orders of
+every stream with >= 2 tokens on C and <= 4 tokens in all; simulation up to 6 tokens).
 Single-port depth mixes (off the domain: no engine step emits them) are explored and counted under
 `extra`, never reported as violations.
 """
